@@ -18,6 +18,7 @@ from lightstreamer_adapter.protocol import (join,
                                             read_seq,
                                             read_map,
                                             remoting_exception_on_parse,
+                                            RemotingException,
                                             encode_string as enc_str,
                                             encode_double as enc_double,
                                             encode_boolean as enc_bool,
@@ -148,8 +149,11 @@ def write_get_items(items=None, exception=None):
         return _handle_exception(exception, join(method, 'E'),
                                  ItemsError)
     if items:
-        return join(method, 'S|') + '|S|'.join([enc_str(item_name) for
-                                                item_name in items])
+        try:
+            encoded_items = [enc_str(item_name) for item_name in items]
+        except TypeError as err:
+            raise RemotingException("Not a sequence of item names") from err
+        return join(method, 'S|') + '|S|'.join(encoded_items)
     return join(method)
 
 
@@ -168,8 +172,11 @@ def write_get_schema(fields=None, exception=None):
         return _handle_exception(exception, join(method, 'E'),
                                  ItemsError, SchemaError)
     if fields:
-        return join(method, 'S|') + '|S|'.join([enc_str(field) for
-                                                field in fields])
+        try:
+            encoded_fields = [enc_str(field) for field in fields]
+        except TypeError as err:
+            raise RemotingException("Not a sequence of field names") from err
+        return join(method, 'S|') + '|S|'.join(encoded_fields)
     return join(method)
 
 
